@@ -60,7 +60,7 @@ theorem erase_degExpr (env : DegEnv) : ∀ e, erase (degExpr env e).1 = erase e
   | .acc a v access => by unfold degExpr; simp only [erase, eraseAs_degAccs env access false]
   | .upd a v access rhe => by
     unfold degExpr; simp only [erase, eraseAs_degAccs env access _, erase_degExpr env rhe]
-  | .phi a args => by unfold degExpr; simp only [erase]
+  | .phi a args => by unfold degExpr; split <;> simp only [erase]
 theorem eraseEs_degExprs (env : DegEnv) : ∀ (es : Exprs) (c : Bool), eraseEs (degExprs env es c).1 = eraseEs es
   | .nil, c => by unfold degExprs; rfl
   | .cons e r, c => by
@@ -1020,14 +1020,19 @@ def passStepD (acc : List Stmt × DegEnv × Bool) (s : Stmt) : List Stmt × DegE
   if c then (done ++ [s], env, true)
   else let (s', env', c') := degStmt env s; (done ++ [s'], env', c')
 
-def blockStepD (acc : List Block × DegEnv × Bool) (b : Block) : List Block × DegEnv × Bool :=
+def blockStepD (all : List Block) (acc : List Block × DegEnv × Bool) (b : Block) : List Block × DegEnv × Bool :=
   let (bs, env, c) := acc
   if c then (bs ++ [b], env, true)
   else
-    let (ss, env', c') := b.stmts.foldl passStepD ([], env, false)
+    let (ss, env', c') := b.stmts.foldl passStepD ([], setJoin all env b, false)
     (bs ++ [{ b with stmts := ss }], env', c')
 
-theorem degPass_eq (env : DegEnv) (bs : List Block) : degPass env bs = bs.foldl blockStepD ([], env, false) := rfl
+theorem degPass_eq (env : DegEnv) (bs : List Block) : degPass env bs = bs.foldl (blockStepD bs) ([], env, false) := rfl
+
+/-- marking the join as conditional changes nothing the invariant speaks about -/
+theorem ginvD_setJoin {E : List Stmt} {ps : List VName} {fn : Bool} {env : DegEnv} {M Done : Stmt → Prop}
+    (all : List Block) (b : Block) (h : GInvD E ps fn env M Done) : GInvD E ps fn (setJoin all env b) M Done :=
+  ⟨h.linked, h.bound, h.doneSub, h.doneDecl, h.params, h.localOnly, h.sound⟩
 
 theorem passStepD_true (rest : List Stmt) : ∀ (done : List Stmt) (env : DegEnv),
     rest.foldl passStepD (done, env, true) = (done ++ rest, env, true) := by
@@ -1039,14 +1044,14 @@ theorem passStepD_true (rest : List Stmt) : ∀ (done : List Stmt) (env : DegEnv
     have : passStepD (done, env, true) s = (done ++ [s], env, true) := rfl
     rw [this, ih]; simp
 
-theorem blockStepD_true (rest : List Block) : ∀ (done : List Block) (env : DegEnv),
-    rest.foldl blockStepD (done, env, true) = (done ++ rest, env, true) := by
+theorem blockStepD_true (all rest : List Block) : ∀ (done : List Block) (env : DegEnv),
+    rest.foldl (blockStepD all) (done, env, true) = (done ++ rest, env, true) := by
   induction rest with
   | nil => intro done env; simp
   | cons s r ih =>
     intro done env
     simp only [List.foldl_cons]
-    have : blockStepD (done, env, true) s = (done ++ [s], env, true) := rfl
+    have : blockStepD all (done, env, true) s = (done ++ [s], env, true) := rfl
     rw [this, ih]; simp
 
 theorem posOK_append (E : List Stmt) : ∀ (l₁ l₂ pre : List Stmt),
@@ -1119,14 +1124,14 @@ theorem stmts_foldD (E : List Stmt) (ps : List VName) (fn : Bool) (wf : WfD E ps
         simpa [List.append_assoc] using ht
       · rw [h5]; simp [eraseS_degStmt]
 
-theorem blocks_foldD (E : List Stmt) (ps : List VName) (fn : Bool) (wf : WfD E ps) :
+theorem blocks_foldD (E : List Stmt) (ps : List VName) (fn : Bool) (wf : WfD E ps) (all : List Block) :
     ∀ (rest done : List Block) (env : DegEnv) (c : Bool) (M Done : Stmt → Prop) (pre : List Stmt),
       GInvD E ps fn env M Done → (∀ t, t ∈ stmtsOf done → M t) → (∀ t, t ∈ stmtsOf rest → M t) →
       PosOK E pre ((stmtsOf rest).map eraseS) → (c = false → ∀ t, t ∈ pre → Done t) →
       ∃ M' Done' : Stmt → Prop, (∀ t, M t → M' t) ∧
-        GInvD E ps fn (rest.foldl blockStepD (done, env, c)).2.1 M' Done' ∧
-        (∀ t, t ∈ stmtsOf (rest.foldl blockStepD (done, env, c)).1 → M' t) ∧
-        (stmtsOf (rest.foldl blockStepD (done, env, c)).1).map eraseS =
+        GInvD E ps fn (rest.foldl (blockStepD all) (done, env, c)).2.1 M' Done' ∧
+        (∀ t, t ∈ stmtsOf (rest.foldl (blockStepD all) (done, env, c)).1 → M' t) ∧
+        (stmtsOf (rest.foldl (blockStepD all) (done, env, c)).1).map eraseS =
           (stmtsOf done).map eraseS ++ (stmtsOf rest).map eraseS := by
   intro rest
   induction rest with
@@ -1150,18 +1155,18 @@ theorem blocks_foldD (E : List Stmt) (ps : List VName) (fn : Bool) (wf : WfD E p
       · exact hr t h1
     | false =>
       simp only [List.foldl_cons]
-      have hstep : blockStepD (done, env, false) b =
-          (done ++ [{ b with stmts := (b.stmts.foldl passStepD ([], env, false)).1 }],
-            (b.stmts.foldl passStepD ([], env, false)).2.1, (b.stmts.foldl passStepD ([], env, false)).2.2) := rfl
+      have hstep : blockStepD all (done, env, false) b =
+          (done ++ [{ b with stmts := (b.stmts.foldl passStepD ([], setJoin all env b, false)).1 }],
+            (b.stmts.foldl passStepD ([], setJoin all env b, false)).2.1, (b.stmts.foldl passStepD ([], setJoin all env b, false)).2.2) := rfl
       rw [hstep]
       have hsplit : (stmtsOf (b :: r)).map eraseS = b.stmts.map eraseS ++ (stmtsOf r).map eraseS := by
         simp [stmtsOf]
       rw [hsplit] at hpos
       obtain ⟨pos1, pos2⟩ := posOK_append E _ _ pre hpos
-      obtain ⟨M₁, Done₁, g1, g2, g3, g4, g5⟩ := stmts_foldD E ps fn wf b.stmts [] env false M Done pre h
+      obtain ⟨M₁, Done₁, g1, g2, g3, g4, g5⟩ := stmts_foldD E ps fn wf b.stmts [] (setJoin all env b) false M Done pre (ginvD_setJoin all b h)
         (by intro t ht; simp at ht) hb pos1 hpre
-      obtain ⟨M', Done', h1, h2, h3, h4⟩ := ih (done ++ [{ b with stmts := (b.stmts.foldl passStepD ([], env, false)).1 }])
-        (b.stmts.foldl passStepD ([], env, false)).2.1 (b.stmts.foldl passStepD ([], env, false)).2.2 M₁ Done₁
+      obtain ⟨M', Done', h1, h2, h3, h4⟩ := ih (done ++ [{ b with stmts := (b.stmts.foldl passStepD ([], setJoin all env b, false)).1 }])
+        (b.stmts.foldl passStepD ([], setJoin all env b, false)).2.1 (b.stmts.foldl passStepD ([], setJoin all env b, false)).2.2 M₁ Done₁
         (pre ++ b.stmts.map eraseS) g2
         (by
           intro t ht
@@ -1181,7 +1186,7 @@ theorem pass_invD (E : List Stmt) (ps : List VName) (fn : Bool) (wf : WfD E ps) 
     ∃ M' Done' : Stmt → Prop, GInvD E ps fn (degPass env bs).2.1 M' Done' ∧
       (∀ t, t ∈ stmtsOf (degPass env bs).1 → M' t) ∧ (stmtsOf (degPass env bs).1).map eraseS = E := by
   rw [degPass_eq]
-  obtain ⟨M', Done', _, h2, h3, h4⟩ := blocks_foldD E ps fn wf bs [] env false M Done [] h
+  obtain ⟨M', Done', _, h2, h3, h4⟩ := blocks_foldD E ps fn wf bs bs [] env false M Done [] h
     (by intro t ht; simp [stmtsOf] at ht) hm (by rw [hE]; exact wf.pos) (by intro _ t ht; cases ht)
   refine ⟨M', Done', h2, h3, ?_⟩
   rw [h4, hE]; simp [stmtsOf]
